@@ -1273,31 +1273,54 @@ func ruleBlockChecksumOnEveryPath(c *Check, p *Program, rule string) {
 	if cp == nil {
 		return
 	}
-	n := 0
-	for _, g := range deepFuncs(cp, 1) {
-		allInstrs(g, func(in ssa.Instruction) {
-			st, ok := in.(*ssa.Store)
-			if !ok || lastField(st.Addr) != "FrameDataBlock.Data" {
-				return
-			}
-			n++
-			c.Sites++
-			isDecision := func(j ssa.Instruction) bool {
-				ci, isC := j.(ssa.CallInstruction)
-				if !isC {
-					return false
-				}
-				f := staticCallee(ci)
-				return f != nil && recvTypeName(f) == "DescriptorFlags" && f.Name() == "BlockChecksum"
-			}
-			isCk := func(j ssa.Instruction) bool {
-				s2, isS := j.(*ssa.Store)
-				return isS && lastField(s2.Addr) == "FrameDataBlock.Checksum"
-			}
-			miss, trail := reachAvoid(g, in, isReturn, func(j ssa.Instruction) bool { return isDecision(j) || isCk(j) })
-			c.Cond(!miss, rule, fmt.Sprintf("Compress#blockchecksum-decided-after-data#%d", n), p.InstrPos(in), "after the bytes to store have been selected, every path to a return passes the block-checksum decision (the block object is reused: a stale checksum would follow this block)", "every path passes Flags.BlockChecksum() or a store to b.Checksum", "a return is reachable without it ("+strings.Join(trail, " -> ")+"): with block checksums enabled the block is followed by the checksum of an earlier block")
-		})
+	isDataStore := func(j ssa.Instruction) bool {
+		st, ok := j.(*ssa.Store)
+		return ok && lastField(st.Addr) == "FrameDataBlock.Data"
 	}
+	isDecisionHere := func(j ssa.Instruction) bool {
+		if s2, isS := j.(*ssa.Store); isS && lastField(s2.Addr) == "FrameDataBlock.Checksum" {
+			return true
+		}
+		ci, isC := j.(ssa.CallInstruction)
+		if !isC {
+			return false
+		}
+		f := staticCallee(ci)
+		return f != nil && recvTypeName(f) == "DescriptorFlags" && f.Name() == "BlockChecksum"
+	}
+	// a helper of the package stands for what its body (and the helpers it calls) does
+	helperHas := func(j ssa.Instruction, pred func(ssa.Instruction) bool) bool {
+		ci, isC := j.(ssa.CallInstruction)
+		if !isC {
+			return false
+		}
+		h := staticCallee(ci)
+		if h == nil || h.Pkg != cp.Pkg || len(h.Blocks) == 0 || h == cp {
+			return false
+		}
+		hit := false
+		for _, g := range deepFuncs(h, 1) {
+			allInstrs(g, func(k ssa.Instruction) {
+				if pred(k) {
+					hit = true
+				}
+			})
+		}
+		return hit
+	}
+	n := 0
+	allInstrs(cp, func(in ssa.Instruction) {
+		if !isDataStore(in) && !helperHas(in, isDataStore) {
+			return
+		}
+		n++
+		c.Sites++
+		miss, trail := reachAvoid(cp, in, isReturn, func(j ssa.Instruction) bool { return isDecisionHere(j) || helperHas(j, isDecisionHere) })
+		if miss && helperHas(in, isDecisionHere) {
+			miss = false // the helper that selects the bytes also decides the checksum
+		}
+		c.Cond(!miss, rule, fmt.Sprintf("Compress#blockchecksum-decided-after-data#%d", n), p.InstrPos(in), "after the bytes to store have been selected, every path to a return passes the block-checksum decision (the block object is reused: a stale checksum would follow this block)", "every path passes Flags.BlockChecksum() or a store to b.Checksum", "a return is reachable without it ("+strings.Join(trail, " -> ")+"): with block checksums enabled the block is followed by the checksum of an earlier block")
+	})
 	if n == 0 {
 		c.Fail(rule, "Compress#blockchecksum-decided-after-data", p.Pos(cp.Pos()), "the stores to b.Data in Compress are resolved", "no store to FrameDataBlock.Data (anchor unresolved)")
 		return
@@ -1306,7 +1329,20 @@ func ruleBlockChecksumOnEveryPath(c *Check, p *Program, rule string) {
 	found := 0
 	defer func() {
 		if found == 0 {
-			c.Unknown(rule, "Compress#blockchecksum-stored-when-declared", p.Pos(cp.Pos()), "where the BlockChecksum flag is set, b.Checksum is stored before Compress returns", "the branch on Flags.BlockChecksum() in Compress is not recognised")
+			// the flag may travel to a helper as an argument: the store is then looked for, its guard is not judged
+			stored := false
+			for _, g := range deepFuncs(cp, 2) {
+				allInstrs(g, func(k ssa.Instruction) {
+					if s2, isS := k.(*ssa.Store); isS && lastField(s2.Addr) == "FrameDataBlock.Checksum" {
+						stored = true
+					}
+				})
+			}
+			if stored {
+				c.Cond(true, rule, "Compress#blockchecksum-stored-when-declared", p.Pos(cp.Pos()), "where the BlockChecksum flag is set, b.Checksum is stored before Compress returns", "the flag does not govern a branch of Compress directly; a store to b.Checksum exists in its helpers (guard not judged)", "")
+			} else {
+				c.Unknown(rule, "Compress#blockchecksum-stored-when-declared", p.Pos(cp.Pos()), "where the BlockChecksum flag is set, b.Checksum is stored before Compress returns", "neither a branch on Flags.BlockChecksum() nor a store to b.Checksum is found")
+			}
 		}
 	}()
 	for _, g := range deepFuncs(cp, 1) {
